@@ -773,6 +773,10 @@ func isolateCase(r *rand.Rand) string {
 	}
 	// always one chain that counts from the end: the commonest way to cut a token out of a header
 	chains[0] = fmt.Sprintf("substr(%d)", -1-r.Intn(6))
+	if r.Intn(4) == 0 {
+		// the gRPC scenario gun: the greeting of its first answer comes back in the metadata and the payload of its second call
+		return fmt.Sprintf("mode=isolate kind=grpcscen n=%d order=%s toks=%s chains=-", n, order, strings.Join(toks, ";"))
+	}
 	return fmt.Sprintf("mode=isolate kind=httpscen n=%d order=%s toks=%s chains=%s", n, order, strings.Join(toks, ";"), strings.Join(chains, ";"))
 }
 
